@@ -52,6 +52,7 @@ type FuncContract struct {
 	NoPanic    bool
 	Ghost      []GhostUpdate
 	Notes      []string
+	Inst       []Clause // instantiation hints (integer shift terms)
 	Src        string
 	Used       bool
 }
@@ -245,6 +246,14 @@ func (c *Contracts) LoadFile(path, pkg string) error {
 					return err
 				}
 				cur.Modifies = append(cur.Modifies, cl)
+			}
+		case "inst":
+			for _, part := range splitTop(rest(1)) {
+				cl, err := parseSpecExpr(part, src)
+				if err != nil {
+					return err
+				}
+				cur.Inst = append(cur.Inst, cl)
 			}
 		case "pure":
 			cur.Pure = true
